@@ -917,6 +917,10 @@ impl SortedWritesTable {
                                         unsafe {
                                             let _was_stale = read_handle.set_stale_shared(occ.get().row);
                                             debug_assert!(!_was_stale);
+                                            // The merged row lives in `scratch`: `cur_row` still
+                                            // holds the incoming row, so write the merge result
+                                            // there before pointing the table at it.
+                                            read_handle.overwrite_row_shared(cur_row, &scratch);
                                         }
                                         occ.get_mut().row = cur_row;
                                         changed = true;
